@@ -125,6 +125,68 @@ def bases(tier):
     return res
 
 
+def neg(v):
+    '''Integer constant v as a tree (negative: unary minus of a literal).'''
+    return num(v) if v >= 0 else un("-", num(-v))
+
+
+def constdiv_queries(tier):
+    '''Constant sub-expressions with integer division / MOD of literal-only
+    operands - both signs, exact and inexact quotients - alone and inside
+    i + c, c + i, i - c, 2 * c, ia(i + c), MAX(i, c), MIN(i, c), compared with the
+    same context over the truncated value (Fortran), the floored value and
+    their neighbours.  Fortran: (3-10)/2 = -3, the floor is -4.'''
+    def sub(a, b):
+        return bn("-", num(a), num(b))
+    consts = [   # (name, tree, truncated value, floored value)
+        ("(3-10)/2", bn("/", sub(3, 10), num(2)), -3, -4),
+        ("7/(0-2)", bn("/", num(7), sub(0, 2)), -3, -4),
+        ("(0-7)/(0-2)", bn("/", sub(0, 7), sub(0, 2)), 3, 3),
+        ("7/2", bn("/", num(7), num(2)), 3, 3),
+        ("(2-7)/2", bn("/", sub(2, 7), num(2)), -2, -3),
+        ("(1-4)/2", bn("/", sub(1, 4), num(2)), -1, -2),
+        ("(3-11)/2", bn("/", sub(3, 11), num(2)), -4, -4),
+        ("(10-3)/2", bn("/", sub(10, 3), num(2)), 3, 3),
+        ("(-7)/2", bn("/", un("-", num(7)), num(2)), -3, -4),
+        ("-(7/2)", un("-", bn("/", num(7), num(2))), -3, -4),
+        ("(0-1)/3", bn("/", sub(0, 1), num(3)), 0, -1),
+        ("mod(3-10,2)", call("mod", sub(3, 10), num(2)), -1, 1),
+        ("mod(7,0-2)", call("mod", num(7), sub(0, 2)), 1, -1),
+        ("mod(0-7,0-2)", call("mod", sub(0, 7), sub(0, 2)), -1, -1),
+        ("mod(0-7,3)", call("mod", sub(0, 7), num(3)), -1, 2),
+        ("mod(7,3)", call("mod", num(7), num(3)), 1, 1),
+    ]
+    if tier != "quick":
+        consts += [
+            ("(4-9)/(0-2)", bn("/", sub(4, 9), sub(0, 2)), 2, 2),
+            ("(0-9)/4", bn("/", sub(0, 9), num(4)), -2, -3),
+            ("9/(0-4)*2", bn("*", bn("/", num(9), sub(0, 4)), num(2)), -4, -6),
+            ("mod(0-9,4)", call("mod", sub(0, 9), num(4)), -1, 3),
+        ]
+    contexts = [
+        ("c", lambda c: c),
+        ("c+i", lambda c: bn("+", c, I)),
+        ("i+c", lambda c: bn("+", I, c)),
+        ("i-c", lambda c: bn("-", I, c)),
+        ("2*c", lambda c: bn("*", num(2), c)),
+        ("ia(i+c)", lambda c: call("ia", bn("+", I, c))),
+        ("max(i,c)", lambda c: call("max", I, c)),
+        ("min(i,c)", lambda c: call("min", I, c)),
+    ]
+    qs = []
+    for cname, c, trunc, floor in consts:
+        others = sorted({trunc - 1, trunc, trunc + 1, floor, floor - 1})
+        for xname, ctx in contexts:
+            lhs = ctx(c)
+            for k in others:
+                qs.append(("cmp", f"constdiv {xname} {cname} vs {k}", lhs, ctx(neg(k)), ""))
+            qs.append(("expand", f"constdiv {xname} {cname}", lhs, NONE, ""))
+            if xname in ("c+i", "i+c", "i-c"):
+                for t in (num(0), J):
+                    qs.append(("solve", f"constdiv {xname} {cname}", lhs, t, "i"))
+    return qs
+
+
 def queries(tier):
     '''Deterministic list of (q, name, e1, e2, sym).'''
     qs = []
@@ -146,6 +208,10 @@ def queries(tier):
             for sym in ("i", "n"):
                 if sym in names:
                     qs.append(("solve", "solve", e, t, sym))
+    qs += constdiv_queries(tier)
+    only = os.environ.get("PV_C17_ONLY")                   # development aid
+    if only:
+        qs = [q for q in qs if q[1].startswith(only)]
     stride = int(os.environ.get("PV_C17_STRIDE", "1"))     # development aid
     return qs[::stride] if stride > 1 else qs
 
@@ -398,8 +464,8 @@ def _rat(t, val, mod_floor=False, right_pow=False, fn=1):
             return args[0] - args[1] * q
         if nm == "ia":
             x = args[0]                # the array family of FortranExpr!ArrFn
-            if x.denominator != 1:
-                return None
+            if x.denominator != 1:     # a rational index: some function of it
+                return {1: x, 2: 3 - x, 3: x * x, 4: Fraction(7)}[fn]
             return {1: x, 2: 3 - x, 3: Fraction(int(x * x) % 5), 4: Fraction(7)}[fn]
     return None
 
@@ -417,8 +483,10 @@ def _holds_under(case, clause, detail, **sem):
     evaluated in the alternative semantics `sem`?  (array function as in
     TLC's witness)'''
     sem["fn"] = detail.get("fn", 1)
+    int_diff = sem.pop("int_diff", False)
     names = case["vars"]
     e1, e2, x = case["e1_tree"], case["e2_tree"], case["x_tree"]
+    seen = 0
     for vals in itertools.product(range(-4, 5), repeat=len(names)):
         val = dict(zip(names, vals))
         if clause == "SolutionSound":
@@ -427,6 +495,7 @@ def _holds_under(case, clause, detail, **sem):
                 sv = _rat(s, val, **sem)
                 if sv is None:
                     continue
+                seen += 1
                 v2 = dict(val)
                 v2[case["sym"]] = sv
                 a, b = _rat(e1, v2, **sem), _rat(e2, v2, **sem)
@@ -439,21 +508,28 @@ def _holds_under(case, clause, detail, **sem):
         b = _rat(x if clause == "ExpandSound" else e2, val, **sem)
         if a is None or b is None:
             continue
+        seen += 1
         if clause == "NeverEqualSound":
             if a == b:
                 return False
+            # never_equal answers True only for a non-zero INTEGER difference
+            if int_diff and (a - b).denominator != 1:
+                return False
         elif a != b:
             return False
-    return True
+    return seen > 0          # an explanation must not be vacuous
 
 
 def m_rational_division(case, clause, detail, finding):
     '''An integer division (or a negative power) occurs and the answer is
-    right when / is the exact rational quotient (sympy's reading).'''
+    right when / is the exact rational quotient (sympy's reading); for
+    never_equal the rational difference must moreover be an integer - the only
+    case in which the implementation answers True.  A quotient rounded any
+    other way (e.g. floored) is not explained by this finding.'''
     def divides(n):
         return n["k"] == "bin" and (n["op"] == "/" or (
             n["op"] == "**" and n["r"]["k"] == "un" and n["r"]["op"] == "-"))
-    return _has(case, divides) and _holds_under(case, clause, detail)
+    return _has(case, divides) and _holds_under(case, clause, detail, int_diff=True)
 
 
 def m_mod_sign(case, clause, detail, finding):
@@ -577,9 +653,9 @@ def run(tier):
         "solve_independent": sum(1 for r in sup if r["q"] == "solve"
                                  and r["answer"] == "independent"),
         "expand_changed": sum(1 for r in sup if r["q"] == "expand" and r["x"] != r["e1"])}
-    if os.environ.get("PV_C17_STRIDE", "1") != "1":
+    if os.environ.get("PV_C17_STRIDE", "1") != "1" or os.environ.get("PV_C17_ONLY"):
         cov["exhaustive"] = False
-        cov["restricted_to"] = "every %s-th query" % os.environ["PV_C17_STRIDE"]
+        cov["restricted_to"] = "stride %s only %s" % (os.environ.get("PV_C17_STRIDE", "1"), os.environ.get("PV_C17_ONLY", "-"))
     cov["evaluations"] = len(sup)
     cov["distinct_nontrivial"] = sum(
         1 for r in sup if (r["q"] == "cmp" and (r["eq"] or r["ne"]))
